@@ -585,7 +585,20 @@ func (ms *MemState) clone() *MemState {
 func addrDistinct(a, b Term) bool {
 	ha, hb := faHead(a), faHead(b)
 	if ha != "" && hb != "" {
-		return ha != hb
+		if ha != hb {
+			return true
+		}
+		// same field of two objects: distinct iff the objects are (injectivity)
+		return addrDistinct(a[len(ha)+2:len(a)-1], b[len(hb)+2:len(b)-1])
+	}
+	if ha == "" && hb == "" && a != b {
+		isAlloc := func(t Term) bool {
+			return !strings.Contains(t, " ") && (strings.Contains(t, "alloc_") || strings.HasPrefix(t, "|glob "))
+		}
+		// distinct allocation sites / globals are asserted pairwise distinct
+		if isAlloc(a) && isAlloc(b) {
+			return true
+		}
 	}
 	isRoot := func(t Term) bool {
 		return strings.HasPrefix(t, "alloc_") || strings.HasPrefix(t, "|glob ") || strings.Contains(t, "alloc_") && !strings.Contains(t, " ")
@@ -630,7 +643,9 @@ func (c *Ctx) readCell(ms *MemState, key string, arr Term, addr Term) Term {
 var memSorts = map[string]string{}
 var memTypes = map[string]types.Type{}
 
-func typeKey(t types.Type) string { return types.TypeString(t, nil) }
+var typeKeyRepl = strings.NewReplacer("\\", "/", "|", "!")
+
+func typeKey(t types.Type) string { return typeKeyRepl.Replace(types.TypeString(t, nil)) }
 
 func (c *Ctx) memName(t types.Type, leaf int) string {
 	return fmt.Sprintf("M %s #%d", typeKey(t), leaf)
